@@ -38,7 +38,7 @@ from ngo.utils.ast import (
     potentially_unifying_sequence,
     predicates,
 )
-from ngo.utils.globals import PREV, UniqueNames
+from ngo.utils.globals import PREV, UniqueNames, UniqueVariables
 
 log = logging.getLogger(__name__)
 
@@ -228,8 +228,9 @@ class SumAggregator:
                     return False
         return True
 
-    def _replace_elements(self, elements: list[AST], prg: list[AST]) -> list[AST]:
+    def _replace_elements(self, elements: list[AST], prg: list[AST], stm: AST) -> list[AST]:
         newelements = []
+        prev = UniqueVariables(stm).make_unique(PREV)  # the source may use the name of the generated variable
         for elem in elements:
             assert elem.ast_type == ASTType.BodyAggregateElement
             if elem.terms and len(elem.terms) > 0:
@@ -275,14 +276,14 @@ class SumAggregator:
                     Literal(
                         LOC,
                         Sign.NoSign,
-                        SymbolicAtom(Function(LOC, next_anotated_pred.name, var_global_flat + [PREV, var_l], False)),
+                        SymbolicAtom(Function(LOC, next_anotated_pred.name, var_global_flat + [prev, var_l], False)),
                     )
                 )
                 new_terms = list(elem.terms)
-                new_terms[0] = BinaryOperation(LOC, BinaryOperator.Minus, elem.terms[0], PREV)
+                new_terms[0] = BinaryOperation(LOC, BinaryOperator.Minus, elem.terms[0], prev)
                 var_global_flat_without_anon = [Function(LOC, "none", [], False) if x.name == "_" else x for x in var_global_flat]
                 new_terms.append(
-                    Function(LOC, next_anotated_pred.name, var_global_flat_without_anon + [PREV, var_l], False)
+                    Function(LOC, next_anotated_pred.name, var_global_flat_without_anon + [prev, var_l], False)
                 )
                 newelements.append(elem.update(condition=new_condition, terms=new_terms))
                 new_condition = list(old_condition)
@@ -344,6 +345,7 @@ class SumAggregator:
         if trigger is None:
             return [minimize]
         trigger_lit, trigger_index, trigger_anon_pred = trigger
+        prev = UniqueVariables(minimize).make_unique(PREV)  # the source may use the name of the generated variable
         if not self._group_in_tuple(trigger_lit, trigger_anon_pred, list(minimize.terms)):
             return [minimize]
         log.info(f"Replace {trigger_anon_pred.pred.name}/{trigger_anon_pred.pred.arity} inside an objective function.")
@@ -374,17 +376,17 @@ class SumAggregator:
             Literal(
                 LOC,
                 Sign.NoSign,
-                SymbolicAtom(Function(LOC, next_anotated_pred.name, var_global_flat + [PREV, var_l], False)),
+                SymbolicAtom(Function(LOC, next_anotated_pred.name, var_global_flat + [prev, var_l], False)),
             )
         )
         # new_terms = list(elem.terms)
         # new_terms[0] = BinaryOperation(LOC, BinaryOperator.Minus, elem.terms[0], PREV)
-        weight = BinaryOperation(LOC, BinaryOperator.Minus, minimize_var, PREV)
+        weight = BinaryOperation(LOC, BinaryOperator.Minus, minimize_var, prev)
         if minimize.weight.ast_type != ASTType.Variable:
             weight = UnaryOperation(LOC, UnaryOperator.Minus, weight)
         terms: list[AST] = list(minimize.terms)
         var_global_flat_without_anon = [Function(LOC, "none", [], False) if x.name == "_" else x for x in var_global_flat]
-        terms.append(Function(LOC, next_anotated_pred.name, var_global_flat_without_anon + [PREV, var_l], False))
+        terms.append(Function(LOC, next_anotated_pred.name, var_global_flat_without_anon + [prev, var_l], False))
         prg.append(minimize.update(weight=weight, terms=terms, body=new_condition))
         new_condition = list(old_condition)
         new_condition.append(
@@ -417,7 +419,7 @@ class SumAggregator:
                             AggregateFunction.Sum,
                             AggregateFunction.SumPlus,
                         ):
-                            newatom = atom.update(elements=self._replace_elements(atom.elements, ret))
+                            newatom = atom.update(elements=self._replace_elements(atom.elements, ret, stm))
                             newbody.append(blit.update(atom=newatom))
                         else:
                             newbody.append(blit)
